@@ -62,16 +62,20 @@ func renderEapTypeData(d eap.EapTypeData) *Sx {
 		return L(A("EXP"), N(uint64(v.VendorID)), N(uint64(v.VendorType)), X(v.VendorData))
 	case *eap.EapAkaPrime:
 		out := L(A("AKA"), N(uint64(v.SubType())))
+		// the attribute values are read BEFORE Marshal is called, so that a Marshal with a side effect on the
+		// stored values cannot hide itself from a before/after comparison
+		var ats []*Sx
+		for t := 0; t < 256; t++ {
+			if a, err := v.GetAttr(eap.EapAkaPrimeAttrType(t)); err == nil {
+				ats = append(ats, L(A("AT"), N(uint64(t)), X(append([]byte{}, a.GetValue()...))))
+			}
+		}
 		if mb, err := v.Marshal(); err != nil {
 			out.List = append(out.List, A("!"))
 		} else {
 			out.List = append(out.List, X(mb))
 		}
-		for t := 0; t < 256; t++ {
-			if a, err := v.GetAttr(eap.EapAkaPrimeAttrType(t)); err == nil {
-				out.List = append(out.List, L(A("AT"), N(uint64(t)), X(a.GetValue())))
-			}
-		}
+		out.List = append(out.List, ats...)
 		return out
 	}
 	return A(fmt.Sprintf("unknown-eap-%T", d))
